@@ -30,14 +30,17 @@ pub(super) fn parser() -> impl Parser<StringView, Output = ExpressionPos, Error 
                 .map(|token| token.to_string())
                 .unwrap_or_else(|| "0".to_owned());
             let s = format!("{}.{}", left, frac_digits.as_str());
+            // a decimal beyond the range of the type is parsed as an infinity: no literal denotes that
             if opt_pound.is_some() {
                 match s.parse::<f64>() {
-                    Ok(f) => Ok(Expression::DoubleLiteral(f)),
+                    Ok(f) if f.is_finite() => Ok(Expression::DoubleLiteral(f)),
+                    Ok(_) => Err(ParserError::Overflow),
                     Err(err) => Err(err.into()),
                 }
             } else {
                 match s.parse::<f32>() {
-                    Ok(f) => Ok(Expression::SingleLiteral(f)),
+                    Ok(f) if f.is_finite() => Ok(Expression::SingleLiteral(f)),
+                    Ok(_) => Err(ParserError::Overflow),
                     Err(err) => Err(err.into()),
                 }
             }
